@@ -142,14 +142,51 @@ async def transfer(item, scratch):
         os.makedirs(dst)
         final = os.path.join(dst, name)
     out = {}
-    try:
-        await asyncio.wait_for(dm.transfer_data(src_loc, src, [dst_loc], dst, writable=item["writable"]), timeout=60)
-        out["raised"] = None
-    except asyncio.TimeoutError:
-        out["raised"] = "timeout (60 s)"
-    except Exception as e:  # noqa
-        out["raised"] = f"{type(e).__name__}: {str(e)[:160]}"
-    if item.get("then"):
+    if item.get("then", {}).get("event") == "concurrent":
+        # a SECOND transfer of the same source to the same location starts while the copy of the first one is still in
+        # progress (the first copy is held at a gate); whenever the second one finishes, its destination is complete
+        gate, reached, calls = asyncio.Event(), asyncio.Event(), [0]
+        for cname in {item["src"], item["dst"]} - {"local"}:
+            c = conns[cname]
+            for meth in ("copy_local_to_remote", "copy_remote_to_local", "copy_remote_to_remote"):
+                orig = getattr(c, meth)
+
+                def wrap(orig=orig):
+                    async def held(*a, **kw):
+                        calls[0] += 1
+                        if calls[0] == 1:
+                            reached.set()
+                            await gate.wait()
+                        return await orig(*a, **kw)
+                    return held
+                setattr(c, meth, wrap())
+        t1 = asyncio.ensure_future(dm.transfer_data(src_loc, src, [dst_loc], dst, writable=item["writable"]))
+        try:
+            await asyncio.wait_for(reached.wait(), timeout=20)
+        except asyncio.TimeoutError:
+            pass  # the first transfer did not need a copy between locations (nothing to hold)
+        dst2 = os.path.join(dst_dir, "second-" + name)
+        t2 = asyncio.ensure_future(dm.transfer_data(src_loc, src, [dst_loc], dst2, writable=item["then"]["writable"]))
+        await asyncio.wait([t2], timeout=0.6)
+        out["second_done_early"] = t2.done()
+        early = snapshot(dst2) if t2.done() and not t2.exception() else None
+        gate.set()
+        res12 = await asyncio.gather(t1, t2, return_exceptions=True)
+        out["raised"] = next((f"{'first' if i == 0 else 'second'} transfer: {type(e).__name__}: {str(e)[:160]}"
+                              for i, e in enumerate(res12) if isinstance(e, BaseException)), None)
+        out["first_dst"] = snapshot(final)
+        if early is not None and early != before:
+            out["early_incomplete"] = True
+        final = dst2
+    else:
+        try:
+            await asyncio.wait_for(dm.transfer_data(src_loc, src, [dst_loc], dst, writable=item["writable"]), timeout=60)
+            out["raised"] = None
+        except asyncio.TimeoutError:
+            out["raised"] = "timeout (60 s)"
+        except Exception as e:  # noqa
+            out["raised"] = f"{type(e).__name__}: {str(e)[:160]}"
+    if item.get("then") and item["then"]["event"] != "concurrent":
         # a SECOND transfer of the same source to the same location after the first copy was lost / clobbered and
         # invalidated (what the recovery's availability check does), or simply repeated
         ev = item["then"]["event"]
@@ -209,6 +246,11 @@ def check_chunk(chunk):
             if res["raised"]:
                 msgs.append(("raises", f"transfer_data raised {res['raised']}"))
             else:
+                if res.get("early_incomplete"):
+                    msgs.append(("content", "the second transfer returned while the first copy was still in progress and its "
+                                            "destination was incomplete at that moment"))
+                if "first_dst" in res and res["first_dst"] != res["before"]:
+                    msgs.append(("content", "the FIRST destination differs from the source after both transfers finished"))
                 if res["dst"] != res["before"]:
                     missing = sorted(set(res["before"]) - set(res["dst"]))[:4]
                     extra = sorted(set(res["dst"]) - set(res["before"]))[:4]
@@ -265,6 +307,13 @@ def all_items(tier):
                     for w2 in (False, True):
                         items.append({"src": a, "dst": b, "writable": w1, "shape": sh, "name": "plain", "dstmode": "absent",
                                       "then": {"event": ev, "writable": w2}})
+    # ... and the second transfer started while the first copy is still in progress
+    for a, b in [(a, b) for a, b in pairs if a != b and b != "local"]:
+        for sh in ("file", "dir2"):
+            for w1 in (False, True):
+                for w2 in (False, True):
+                    items.append({"src": a, "dst": b, "writable": w1, "shape": sh, "name": "plain", "dstmode": "absent",
+                                  "then": {"event": "concurrent", "writable": w2}})
     if not quick:
         for a, b in pairs:
             for nm in NAMES:
